@@ -1,6 +1,8 @@
 import GceTcb.Proofs.SnpDigest
 /-
-C04 — what sev.LaunchDigest does for ANY product value, supported or not.  `bitWidth[product]` reads 0
+C04 — what sev.LaunchDigest did, BEFORE the product-check fix, for ANY product value, supported or
+not: every theorem here is about the model variant `SevLd.launchDigestOld` (the measurement without the
+product check).  `bitWidth[product]` reads 0
 for a product that is not a key of the map; `ProductHighAddress` is then 0 and the range check
 `gpa > high + 0x1000 − len` is evaluated in wrapping uint64 arithmetic.  The general theorem
 characterises acceptance by the three checks of checkUpdateDataGuestMemoryAlignment as the code
@@ -144,17 +146,17 @@ structure AcceptsAt (high : Nat) (o : Opts) (fw : Bytes) (rb : ResetBlock) (secs
   valid : SectionsValid secs
   measurable : ∀ s ∈ secs, SecPasses high s
 
-/-- **sev.LaunchDigest for every product value** (images up to 4 GiB): it returns `d` exactly when the vCPU
+/-- **The pre-repair sev.LaunchDigest for every product value** (images up to 4 GiB): it returns `d` exactly when the vCPU
     count is at least 1, the image parses, the ROM range and every section range pass the three checks of
     checkUpdateDataGuestMemoryAlignment evaluated at `high = ProductHighAddress(product)` in uint64
     arithmetic, the metadata is valid and every kind known — and `d` is the digest chain with all VMSA pages
     at `high`. -/
-theorem launchDigest_any (H : Bytes → Bytes) (hH : ∀ x, (H x).length = 48) (c : Cfg) (hc : CfgIsSpec c)
+theorem launchDigestOld_any (H : Bytes → Bytes) (hH : ∀ x, (H x).length = 48) (c : Cfg) (hc : CfgIsSpec c)
     (o : Opts) (fw : Bytes) (hfw : fw.length ≤ 2 ^ 32) (d : Bytes) :
-    launchDigest H c o fw = .ok d ↔
+    launchDigestOld H c o fw = .ok d ↔
       ∃ rb secs, AcceptsAt (productHigh (c.width o.product)) o fw rb secs ∧
         d = chainAt H fw (secs.map toSpec) rb.addr o.vcpus.toNat (productHigh (c.width o.product)) := by
-  unfold launchDigest
+  unfold launchDigestOld launchDigestBody
   by_cases hv : o.vcpus < 1
   · rw [if_pos hv]
     constructor
@@ -264,18 +266,18 @@ theorem checkAlign_sec_zero (a l : Nat) (ha : a < 2 ^ 32) (hl : l < 2 ^ 32) :
   rw [checkAlign_none_iff]
   omega
 
-/-- **An unsupported product** (`bitWidth[product]` reads 0), images up to 4 GiB: sev.LaunchDigest does not
-    refuse the product.  It returns a digest exactly for the images `Accepts` describes whose ROM has at least
+/-- **An unsupported product** (`bitWidth[product]` reads 0), images up to 4 GiB: the pre-repair
+    sev.LaunchDigest did not refuse the product.  It returned a digest exactly for the images `Accepts` describes whose ROM has at least
     two pages and whose every metadata range has at least two pages or starts at address 0 — and the digest is
     the chain with all VMSA pages at guest-physical address 0 (`snpSpec … 0`), which is the launch digest of no
     AMD product.  Every other image is refused (one-page ranges above address 0 with the message "address range
     is larger than the product can represent"). -/
-theorem launchDigest_width_zero (H : Bytes → Bytes) (hH : ∀ x, (H x).length = 48) (c : Cfg) (hc : CfgIsSpec c)
+theorem launchDigestOld_width_zero (H : Bytes → Bytes) (hH : ∀ x, (H x).length = 48) (c : Cfg) (hc : CfgIsSpec c)
     (o : Opts) (hw0 : c.width o.product = 0) (fw : Bytes) (hfw : fw.length ≤ 2 ^ 32) (d : Bytes) :
-    launchDigest H c o fw = .ok d ↔
+    launchDigestOld H c o fw = .ok d ↔
       ∃ rb secs, Accepts o fw rb secs ∧ 0x2000 ≤ fw.length ∧ (∀ s ∈ secs, 0x2000 ≤ s.length ∨ s.address = 0) ∧
         d = Spec.SnpLaunch.snpSpec H fw (secs.map toSpec) rb.addr o.vcpus.toNat 0 := by
-  rw [launchDigest_any H hH c hc o fw hfw d, hw0, productHigh_zero]
+  rw [launchDigestOld_any H hH c hc o fw hfw d, hw0, productHigh_zero]
   have hsp : Spec.SnpLaunch.productHigh 0 = 0 := by decide
   have hinr : ∀ rb secs, extractFromFirmware true true fw = .ok (some rb, some secs) →
       ∀ s ∈ secs, s.address < 2 ^ 32 ∧ s.length < 2 ^ 32 := by
